@@ -25,7 +25,7 @@ SIDS = [1, 2, 3, 0x7FFF, 0xFFFE, 0xFFFF]
 SYMS = [(f, s) for f in (0, 1) for s in SIDS]
 N1, N2, N3, NI = 12, 144, 1728, 5184
 NSWEEP = N1 + N2 + N3 + NI
-RANDOM_RUNS = {"quick": 6000, "thorough": 400000}
+RANDOM_RUNS = {"quick": 3000, "thorough": 400000}
 FIND = [["find", 0x7777, 0xFFFF, 0xFF, 0xFFFFFFFF, 3]]
 
 
